@@ -283,3 +283,30 @@ def mutate_tree(t, rng, p=0.06):
         return ("m", ents, t[2] if rng.random() > p else not t[2], t[3])
     if k == "tag": return ("tag", t[1], mutate_tree(t[2], rng, p), t[3])
     return t
+
+
+def single_int_mutants(t, values, rng=None, limit=None):
+    """every encoding that differs from t in exactly ONE unsigned integer that is a value (not a map key): that integer replaced by each of
+    `values` ("boundary integers in every numeric field", one field at a time, the rest of the file intact). Yields (path, value, bytes);
+    with `limit`, a random subset of the (node, value) pairs."""
+    paths = []
+    def walk(n, path):
+        k = n[0]
+        if k == "u": paths.append(path)
+        elif k == "a":
+            for i, x in enumerate(n[1]): walk(x, path + (i,))
+        elif k == "m":
+            for i, (a, b) in enumerate(n[1]): walk(b, path + (i,))
+        elif k == "tag": walk(n[2], path + (0,))
+    walk(t, ())
+    def put(n, path, v):
+        if not path: return ("u", v, 8)
+        k, i = n[0], path[0]
+        if k == "a": return ("a", n[1][:i] + [put(n[1][i], path[1:], v)] + n[1][i + 1:], n[2], n[3])
+        if k == "m": return ("m", n[1][:i] + [(n[1][i][0], put(n[1][i][1], path[1:], v))] + n[1][i + 1:], n[2], n[3])
+        if k == "tag": return ("tag", n[1], put(n[2], path[1:], v), n[3])
+        return n
+    pairs = [(p, v) for p in paths for v in values]
+    if limit is not None and rng is not None and len(pairs) > limit: pairs = rng.sample(pairs, limit)
+    for p, v in pairs:
+        yield p, v, encode(put(t, p, v))
